@@ -102,31 +102,74 @@ Definition tok_approve (c : cfg) (now : Z) (ok_auth : addr -> bool) (t : token)
   set_allowance c now t owner spender amount live.
 
 (* ---------- the vault ---------- *)
-Record state := { now : Z; asset : token; share : token }.
-Definition set_asset (s : state) (t : token) := {| now := now s; asset := t; share := share s |}.
-Definition set_share (s : state) (t : token) := {| now := now s; asset := asset s; share := t |}.
-Definition init (now0 : Z) : state := {| now := now0; asset := empty_token; share := empty_token |}.
+(* the asset token contract's address: the harness numbers it 255 *)
+Definition ASSET_ADDR : addr := 255%N.
 
-(* ExampleContract::__constructor: set_asset; set_decimals_offset (offset <= MAX_DECIMALS_OFFSET);
-   set_metadata(Vault::decimals = asset decimals checked_add offset).  Returns the vault's decimals. *)
-Definition construct (c : cfg) : res Z :=
-  do _ <- guard (negb (c_max_off c <? c_off c));
-  of_option (checked_add_u32 (c_adec c) (c_off c)).
+(* v_asset / v_off: the vault's instance-storage entries VaultStorageKey::AssetAddress and
+   VaultStorageKey::VirtualDecimalsOffset (None = never set) *)
+Record state := { now : Z; asset : token; share : token; v_asset : option addr; v_off : option Z }.
+Definition set_asset (s : state) (t : token) :=
+  {| now := now s; asset := t; share := share s; v_asset := v_asset s; v_off := v_off s |}.
+Definition set_share (s : state) (t : token) :=
+  {| now := now s; asset := asset s; share := t; v_asset := v_asset s; v_off := v_off s |}.
+(* before the constructor ran *)
+Definition blank (now0 : Z) : state :=
+  {| now := now0; asset := empty_token; share := empty_token; v_asset := None; v_off := None |}.
 
-(* Vault::total_assets: the asset token's balance of the vault *)
+(* Vault::set_asset: once *)
+Definition vault_set_asset (s : state) (a : addr) : res state :=
+  match v_asset s with
+  | Some _ => Fail
+  | None => Ok {| now := now s; asset := asset s; share := share s; v_asset := Some a; v_off := v_off s |}
+  end.
+(* Vault::set_decimals_offset: offset <= MAX_DECIMALS_OFFSET, once *)
+Definition vault_set_decimals_offset (c : cfg) (s : state) (off : Z) : res state :=
+  do _ <- guard (negb (c_max_off c <? off));
+  match v_off s with
+  | Some _ => Fail
+  | None => Ok {| now := now s; asset := asset s; share := share s; v_asset := v_asset s; v_off := Some off |}
+  end.
+(* Vault::get_decimals_offset: unwrap_or(0) *)
+Definition get_decimals_offset (s : state) : Z := match v_off s with Some o => o | None => 0 end.
+(* Vault::query_asset *)
+Definition query_asset (s : state) : res addr := of_option (v_asset s).
+(* token::Client::new(e, &Self::query_asset(e)): calls on it reach the asset token only if the stored
+   address is the asset token's *)
+Definition asset_client (s : state) : res unit := do a <- query_asset s; guard (N.eqb a ASSET_ADDR).
+
+(* Vault::decimals: asset decimals checked_add offset (u32) *)
+Definition vault_decimals (c : cfg) (s : state) : res Z :=
+  do _ <- asset_client s;
+  of_option (checked_add_u32 (c_adec c) (get_decimals_offset s)).
+
+(* ExampleContract::__constructor(asset, decimals_offset): Vault::set_asset; Vault::set_decimals_offset;
+   Base::set_metadata(Vault::decimals(), ..).  Returns the constructed state and the vault's decimals. *)
+Definition construct (c : cfg) (now0 : Z) : res (state * Z) :=
+  do s1 <- vault_set_asset (blank now0) ASSET_ADDR;
+  do s2 <- vault_set_decimals_offset c s1 (c_off c);
+  do d <- vault_decimals c s2;
+  Ok (s2, d).
+(* the state a successful constructor leaves *)
+Definition init (c : cfg) (now0 : Z) : state :=
+  {| now := now0; asset := empty_token; share := empty_token; v_asset := Some ASSET_ADDR; v_off := Some (c_off c) |}.
+
+(* the asset token's balance of the vault *)
 Definition total_assets (s : state) : Z := bal (asset s) V.
+(* Vault::total_assets: token_client.balance(current contract) *)
+Definition total_assets_r (s : state) : res Z := do _ <- asset_client s; Ok (total_assets s).
 Definition total_supply (s : state) : Z := supply (share s).
-(* 10_i128.checked_pow(offset) *)
-Definition pow10 (c : cfg) : res Z := of_option (fit128 (10 ^ c_off c)).
+(* 10_i128.checked_pow(Self::get_decimals_offset(e)) *)
+Definition pow10 (s : state) : res Z := of_option (fit128 (10 ^ get_decimals_offset s)).
 
 (* Vault::convert_to_shares_with_rounding *)
 Definition to_shares (c : cfg) (s : state) (assets : Z) (rd : rounding) : res Z :=
   if assets <? 0 then Fail
   else if assets =? 0 then Ok 0
   else
-    do pow <- pow10 c;
+    do pow <- pow10 s;
     do y <- of_option (checked_add (total_supply s) pow);
-    do den <- of_option (checked_add (total_assets s) 1);
+    do ta <- total_assets_r s;
+    do den <- of_option (checked_add ta 1);
     mul_div128 rd assets y den.
 
 (* Vault::convert_to_assets_with_rounding *)
@@ -134,8 +177,9 @@ Definition to_assets (c : cfg) (s : state) (shares : Z) (rd : rounding) : res Z 
   if shares <? 0 then Fail
   else if shares =? 0 then Ok 0
   else
-    do y <- of_option (checked_add (total_assets s) 1);
-    do pow <- pow10 c;
+    do ta <- total_assets_r s;
+    do y <- of_option (checked_add ta 1);
+    do pow <- pow10 s;
     do den <- of_option (checked_add (total_supply s) pow);
     mul_div128 rd shares y den.
 
@@ -158,11 +202,12 @@ Definition event := (N * addr * addr * addr * Z * Z)%type.
    that sub-invocation (AFull). *)
 Definition deposit_internal (c : cfg) (s : state) (au : auths)
   (receiver : addr) (assets shares : Z) (from operator : addr) : res state :=
+  do _ <- asset_client s;
   do a1 <- (if N.eqb operator from
             then tok_transfer (auth_full au) (asset s) from V assets
             else tok_transfer_from c (now s) (auth_full au) (asset s) operator from V assets);
   do s1 <- update (share s) None (Some receiver) shares;
-  Ok {| now := now s; asset := a1; share := s1 |}.
+  Ok {| now := now s; asset := a1; share := s1; v_asset := v_asset s; v_off := v_off s |}.
 
 (* Vault::withdraw_internal.  The asset transfer out of the vault is authorised by the vault being the
    direct caller. *)
@@ -172,8 +217,9 @@ Definition withdraw_internal (c : cfg) (s : state)
             then spend_allowance c (now s) (share s) owner operator shares
             else Ok (share s));
   do s1 <- update s0 (Some owner) None shares;
+  do _ <- asset_client s;
   do a1 <- tok_transfer (fun _ => true) (asset s) V receiver assets;
-  Ok {| now := now s; asset := a1; share := s1 |}.
+  Ok {| now := now s; asset := a1; share := s1; v_asset := v_asset s; v_off := v_off s |}.
 
 Definition deposit (c : cfg) (s : state) (au : auths) (assets : Z) (receiver from operator : addr)
   : res (state * (Z * list event)) :=
@@ -226,7 +272,9 @@ Inductive call :=
 | STransferFrom (spender from to : addr) (amount : Z) (au : auths)
 | SApprove (owner spender : addr) (amount live : Z) (au : auths)
 | Advance (n : Z)                                             (* ledger sequence += n *)
-| Query (q : query).
+| Query (q : query)
+| SetAsset (a : addr)                                         (* library Vault::set_asset (no authorisation) *)
+| SetOffset (off : Z).                                        (* library Vault::set_decimals_offset *)
 
 Definition run_query (c : cfg) (s : state) (q : query) : res Z :=
   match q with
@@ -263,8 +311,10 @@ Definition step_res (c : cfg) (s : state) (cl : call) : res (state * (Z * list e
   | SApprove o sp a l au => lift_tok (set_share s) (tok_approve c (now s) (auth_root au) (share s) o sp a l)
   | Advance n =>
       do _ <- guard ((0 <=? n) && in_u32 (now s + n));
-      Ok ({| now := now s + n; asset := asset s; share := share s |}, (0, []))
+      Ok ({| now := now s + n; asset := asset s; share := share s; v_asset := v_asset s; v_off := v_off s |}, (0, []))
   | Query q => do v <- run_query c s q; Ok (s, (v, []))
+  | SetAsset a => do s' <- vault_set_asset s a; Ok (s', (0, []))
+  | SetOffset off => do s' <- vault_set_decimals_offset c s off; Ok (s', (0, []))
   end.
 
 (* a failing call leaves the old state (host rollback) *)
